@@ -109,7 +109,6 @@ package wal
 //@ func CommitOffsetProvider.CommitOffset
 //@ trusted
 //@ pure
-//@ nondet
 
 //@ func readWriteSegment.Close
 //@ trusted
@@ -244,3 +243,91 @@ package wal
 //@ ensures result != nil ==> t.firstOffset.v == old(t.firstOffset.v)
 //@ ensures t.lastAppendedOffset.v == old(t.lastAppendedOffset.v) && t.lastSyncedOffset.v == old(t.lastSyncedOffset.v)
 //@ modifies t.firstOffset.v, fields(readOnlySegmentsGroup), fields(readOnlySegment)
+
+// TruncateLog: on success the log ends exactly at the returned offset, both as
+// appended and as synced, so that the next append is accepted at res+1.
+//
+//@ func wal.TruncateLog(t, lastSafeOffset) (res, err)
+//@ property C09
+//@ requires walInv(t) && lastSafeOffset >= -1
+//@ loop 0 modifies fields(readOnlySegmentsGroup), fields(readOnlySegment), fields(readWriteSegment)
+//@ ensures err == nil ==> res == t.lastAppendedOffset.v && res == t.lastSyncedOffset.v
+//@ ensures err == nil ==> res == -1 || res == lastSafeOffset
+//@ ensures err == nil && old(t.lastAppendedOffset.v) != -1 ==> walInv(t)
+
+// ---------------------------------------------------------------------------
+// Readers
+
+//@ func wal.readAtIndex(t, index) (entry, err)
+//@ trusted
+//@ ensures err == nil ==> entry != nil && entry.Offset == index
+//@ preserves fields(wal), fields(readWriteSegment), fields(reader), fields(forwardReader), fields(reverseReader)
+//@ note trusted: the payload stored at offset i is the marshalled LogEntry whose Offset field is i (appendAsync0 is the only writer and stores entry.Offset at that index); protobuf round trip and the RefCount-wrapped read-only segments are not verified
+
+//@ func wal.NewReader(t, after) (r, err)
+//@ property C09
+//@ requires after < 9223372036854775807
+//@ ensures err == nil ==> r != nil && typeIs(r, *forwardReader) && as(r, *forwardReader).reader.nextOffset == after + 1 && as(r, *forwardReader).reader.wal == t && !as(r, *forwardReader).reader.closed && after + 1 >= t.firstOffset.v
+//@ ensures err != nil ==> after + 1 < t.firstOffset.v && errIs(err, ErrEntryNotFound)
+//@ modifies nothing
+
+//@ func wal.NewReverseReader(t) (r, err)
+//@ property C09
+//@ ensures err == nil && r != nil && typeIs(r, *reverseReader) && as(r, *reverseReader).reader.nextOffset == t.lastSyncedOffset.v && as(r, *reverseReader).reader.wal == t
+//@ modifies nothing
+
+//@ func forwardReader.ReadNext(r) (entry, err)
+//@ property C09
+//@ requires r.reader.wal != nil && r.reader.wal.readLatency != nil && r.reader.nextOffset < 9223372036854775807
+//@ ensures err == nil ==> entry != nil && entry.Offset == old(r.reader.nextOffset) && r.reader.nextOffset == old(r.reader.nextOffset) + 1
+//@ ensures err != nil ==> r.reader.nextOffset == old(r.reader.nextOffset)
+//@ preserves fields(wal)
+
+//@ func forwardReader.HasNext
+//@ property C09
+//@ requires r.reader.wal != nil
+//@ ensures result <==> (!r.reader.closed && r.reader.nextOffset <= r.reader.wal.lastSyncedOffset.v)
+//@ modifies nothing
+
+//@ func reverseReader.ReadNext(r) (entry, err)
+//@ property C09
+//@ requires r.reader.wal != nil && r.reader.nextOffset > -9223372036854775808
+//@ ensures err == nil ==> entry != nil && entry.Offset == old(r.reader.nextOffset) && r.reader.nextOffset == old(r.reader.nextOffset) - 1
+//@ ensures err != nil ==> r.reader.nextOffset == old(r.reader.nextOffset)
+//@ preserves fields(wal)
+
+//@ func reverseReader.HasNext
+//@ property C09
+//@ requires r.reader.wal != nil && r.reader.wal.firstOffset.v >= -1
+//@ ensures result <==> (!r.reader.closed && r.reader.wal.firstOffset.v != -1 && r.reader.nextOffset != r.reader.wal.firstOffset.v - 1)
+//@ modifies nothing
+
+// ---------------------------------------------------------------------------
+// Trimmer: binary search over entry timestamps, trim never past the commit offset.
+
+//@ ghostfun tsKey(*wal, int64) int
+
+//@ func trimmer.readAtOffset(t, offset) (timestamp, err)
+//@ trusted
+//@ ensures err == nil ==> timeKey(timestamp) == tsKey(t.wal, offset)
+//@ modifies nothing
+//@ note trusted: the timestamp of the entry stored at an offset is stable between reads (ghost tsKey); reading goes through NewReader/ReadNext and protobuf
+
+//@ func trimmer.binarySearch(t, firstOffset, lastOffset, cutoffTime) (res, err)
+//@ property C09 C17
+//@ requires 0 <= firstOffset && firstOffset <= lastOffset && lastOffset < 4611686018427387904
+//@ requires forall i int64, j int64 :: firstOffset <= i && i <= j && j <= lastOffset ==> tsKey(t.wal, i) <= tsKey(t.wal, j)
+//@ requires tsKey(t.wal, firstOffset) <= timeKey(cutoffTime)
+//@ loop 0 invariant old(firstOffset) <= firstOffset && firstOffset <= lastOffset && lastOffset <= old(lastOffset)
+//@ loop 0 invariant tsKey(t.wal, firstOffset) <= timeKey(cutoffTime) && (lastOffset == old(lastOffset) || timeKey(cutoffTime) < tsKey(t.wal, lastOffset + 1))
+//@ loop 0 decreases lastOffset - firstOffset
+//@ ensures err == nil ==> old(firstOffset) <= res && res <= old(lastOffset) && tsKey(t.wal, res) <= timeKey(cutoffTime) && (res == old(lastOffset) || timeKey(cutoffTime) < tsKey(t.wal, res + 1))
+//@ modifies nothing
+
+//@ func trimmer.doTrim
+//@ property C09
+//@ requires t.wal != nil && t.log != nil && t.clock != nil && t.commitOffsetProvider != nil && walMetrics(t.wal) && t.wal.readOnlySegments != nil
+//@ requires 0 <= t.wal.firstOffset.v && t.wal.firstOffset.v <= t.wal.lastSyncedOffset.v && t.wal.lastSyncedOffset.v < 4611686018427387904 || t.wal.lastSyncedOffset.v == -1
+//@ requires forall i int64, j int64 :: t.wal.firstOffset.v <= i && i <= j && j <= t.wal.lastSyncedOffset.v ==> tsKey(t.wal, i) <= tsKey(t.wal, j)
+//@ ensures t.wal.firstOffset.v == old(t.wal.firstOffset.v) || (t.wal.firstOffset.v <= old(t.commitOffsetProvider.CommitOffset()) && t.wal.firstOffset.v <= old(t.wal.lastSyncedOffset.v))
+//@ ensures t.wal.lastAppendedOffset.v == old(t.wal.lastAppendedOffset.v) && t.wal.lastSyncedOffset.v == old(t.wal.lastSyncedOffset.v)
